@@ -1,8 +1,24 @@
 from io import TextIOBase
-from xml.sax.saxutils import XMLGenerator
+from xml.sax.saxutils import XMLGenerator, escape
 
 from xsdata.formats.dataclass.serializers.config import SerializerConfig
 from xsdata.formats.dataclass.serializers.mixins import XmlWriter
+
+
+class CharacterDataGenerator(XMLGenerator):
+    """XMLGenerator that writes carriage returns as character references.
+
+    A literal carriage return in character data is turned into a line feed
+    by every xml parser (end-of-line normalization).
+    """
+
+    def characters(self, content: str) -> None:
+        """Write character data, escaping markup and carriage returns."""
+        if content:
+            self._finish_pending_start_element()  # type: ignore
+            if not isinstance(content, str):
+                content = str(content, self._encoding)  # type: ignore
+            self._write(escape(content, {"\r": "&#13;"}))  # type: ignore
 
 
 class XmlEventWriter(XmlWriter):
@@ -41,7 +57,7 @@ class XmlEventWriter(XmlWriter):
         Returns:
             A xml generator content handler instance.
         """
-        return XMLGenerator(
+        return CharacterDataGenerator(
             out=self.output,
             encoding=self.config.encoding,
             short_empty_elements=True,
